@@ -40,13 +40,7 @@ func newSC(c *Ctx, rule string) *SC {
 	return sc
 }
 
-func translateAll(A *pa.Analysis) {
-	for _, b := range A.Fn.Blocks {
-		if ifi, ok := b.Instrs[len(b.Instrs)-1].(*ssa.If); ok {
-			A.Cond(ifi.Cond)
-		}
-	}
-}
+func translateAll(A *pa.Analysis) { A.Prepare() }
 
 // fieldKey returns the atom key of a load of the receiver's field playing `role`.
 func (sc *SC) fieldLit(A *pa.Analysis, recv *ssa.Parameter, role string) *pa.F {
